@@ -173,6 +173,13 @@ package evaluator
 //@   ensures  isT(node, ast.Expr) ==> isVal(res)
 //@   assigns  EC
 //
+// Obj.callProp: the value of a non-callable property, or the result of calling it - always a value
+//@ props C01 C04 C12
+//@ func evaluator.builtInCallProp(env, kwargs, args) res
+//@   requires env != nil && kwargs != nil && argsOK(args)
+//@   ensures  isVal(res)
+//@   assigns  EC
+//
 //@ props C12 C07 C15 C19
 // appendStackTrace returns the error it was given (kind and message untouched); it writes only the trace.
 //@ func evaluator.appendStackTrace(e, src) res
@@ -268,7 +275,9 @@ package evaluator
 //@   ensures  len(stmts) == 0 ==> res == object.BuiltInNil && len(deferObjs) == 0
 //@   ensures  ncalls >= 1 && isT(result(ncalls - 1), *object.PanErr) ==> res == result(ncalls - 1)
 //@   ensures  forall j int :: {deferObjs[j]} 0 <= j && j < len(deferObjs) ==> deferObjs[j].Node != nil
+//@   ensures  isVal(res)
 //@   assigns  EC
+//@   loop 1 invariant (isVal(val) || (isT(val, *object.YieldObj) && yielded != nil)) && (yielded == nil || isVal(yielded))
 //@   loop 1 invariant fresh(deferObjs) && ncalls == rangeindex + 1 && ncalls <= len(stmts) && val != nil
 //@   loop 1 invariant forall k int :: {result(k)} {arg1(k)} 0 <= k && k < ncalls ==> called(k, evaluator.Eval) && arg1(k) == stmts[k] && arg2(k) == env && !isT(result(k), *object.PanErr) && !isT(result(k), *object.ReturnObj)
 //@   loop 1 invariant ncalls == 0 ==> len(deferObjs) == 0 && val == object.BuiltInNil && yielded == nil
@@ -298,6 +307,7 @@ package evaluator
 //@   ensures  result(1) != nil ==> res == result(1)
 //@   ensures  result(1) == nil ==> res == result(0)
 //@   ensures  len(stmts) == 0 ==> res == object.BuiltInNil
+//@   ensures  isVal(res)
 //@   assigns  EC
 //
 // ---- C05: property resolution on the call path -------------------------------------------------
@@ -306,7 +316,7 @@ package evaluator
 // the property itself (first owner along the chain), else the first `_missing` in the same order, else NoPropErr
 //@ func evaluator.evalProp(propStr, recv) o, isMissing
 //@   requires isVal(recv)
-//@   requires forall p *object.PanObj :: {p.Pairs} p != nil ==> p.Pairs != nil
+//@   ensures  isVal(o)
 //@   ensures  ncalls >= 1 && called(0, object.FindPropAlongProtos) && arg1(0) == recv && arg2(0) == symhash(propStr)
 //@   ensures  resultok(0) ==> ncalls == 1 && o == result(0) && !isMissing
 //@   ensures  !resultok(0) ==> ncalls == 2 && called(1, object.FindPropAlongProtos) && arg1(1) == recv && arg2(1) == symhash("_missing")
@@ -364,12 +374,13 @@ package evaluator
 // a call runs the body in a fresh copy of the closure's scope: same enclosing (definition) scope, own store;
 // never the caller's scope
 //@ func evaluator.evalPanFuncCall(f, env, kwargs, args) res
-//@   requires f != nil && env != nil && kwargs != nil && kwargs.Pairs != nil && *kwargs.Pairs != nil && argsOK(args)
+//@   requires f != nil && env != nil && kwargs != nil
 //@   let defEnv := f.Env
 //@   let defOuter := f.Env.outer
 //@   ensures  ncalls == 2 && called(0, evaluator.assignArgsToEnv) && called(1, evaluator.evalStmts) && arg1(1) == arg1(0)
 //@   ensures  fresh(arg1(1)) && arg1(1) != env && arg1(1) != defEnv && as(arg1(1), *object.Env).outer == defOuter && fresh(as(arg1(1), *object.Env).Store)
 //@   ensures  !isT(result(1), *object.PanErr) ==> res == result(1)
+//@   ensures  isVal(res)
 //@   assigns  EC
 //
 //@ func evaluator.paddedArgs(args, params) res
@@ -427,4 +438,91 @@ package evaluator
 //@   ensures  !isErr(result(0)) && !isErr(result(1)) ==> ncalls == 3 && called(2, evaluator.evalOrNil) && arg1(2) == node.Step
 //@   ensures  !isErr(result(0)) && !isErr(result(1)) && isErr(result(2)) ==> res == result(2)
 //@   ensures  !isErr(result(0)) && !isErr(result(1)) && !isErr(result(2)) ==> isT(res, *object.PanRange) && as(res, *object.PanRange).Start == result(0) && as(res, *object.PanRange).Stop == result(1) && as(res, *object.PanRange).Step == result(2)
+//@   assigns  EC
+//
+// ---- C04: chain contexts (property-call form) ----------------------------------------------------
+// `next` is the inner handler (captured); calls through it are logged as called(i, "next") with
+// arg1 = env, arg2 = receiver, arg3 = prop, arg4 = chain argument, sliceArg = args, arg5 = kwargs.
+//@ traced: evaluator.(*iterHandler).Next
+//@ props C04 C07
+//@ spec macro isNilT(o object.PanObject) bool = o.Type() == object.NilType
+//@ spec macro isErrT(o object.PanObject) bool = o.Type() == object.ErrType
+//
+// lonely (&): a nil receiver is returned without calling; otherwise the call's result
+//@ func evaluator.propCallLonelyChainMiddleware$1(env, recv, propName, _, chainArg, args, kwargs) res
+//@   requires isVal(recv) && next != nil
+//@   ensures  isNilT(recv) ==> ncalls == 0 && res == recv
+//@   ensures  !isNilT(recv) ==> ncalls == 1 && called(0, "next") && arg1(0) == env && arg2(0) == recv && arg4(0) == chainArg && sliceArg(0) == args && arg5(0) == kwargs && res == result(0)
+//@   assigns  EC
+//
+// thoughtful (~): a nil or failed result is replaced by the call's receiver
+//@ func evaluator.propCallThoughtfulChainMiddleware$1(env, recv, propName, _, chainArg, args, kwargs) res
+//@   requires isVal(recv) && next != nil
+//@   ensures  ncalls == 1 && called(0, "next") && arg1(0) == env && arg2(0) == recv && arg4(0) == chainArg && sliceArg(0) == args && arg5(0) == kwargs
+//@   ensures  isErrT(result(0)) || isNilT(result(0)) ==> res == recv
+//@   ensures  !isErrT(result(0)) && !isNilT(result(0)) ==> res == result(0)
+//@   assigns  EC
+//
+//@ func evaluator.propCallNothingMiddleware$1(env, recv, propName, prop, chainArg, args, kwargs) res
+//@   requires next != nil
+//@   ensures  ncalls == 1 && called(0, "next") && arg1(0) == env && arg2(0) == recv && arg3(0) == prop && arg4(0) == chainArg && sliceArg(0) == args && arg5(0) == kwargs && res == result(0)
+//@   assigns  EC
+//
+// property lookup in front of the call: an error from the lookup is returned; a `_missing` hit gets the
+// property name prepended to the arguments
+//@ func evaluator.findPropMiddleware$1(env, recv, propName, _, chainArg, args, kwargs) res
+//@   requires isVal(recv) && next != nil
+//@   ensures  ncalls >= 1 && called(0, evaluator.evalProp) && arg1(0) == recv
+//@   ensures  isErr(result(0)) ==> ncalls == 1 && res == result(0)
+//@   ensures  !isErr(result(0)) ==> ncalls == 2 && called(1, "next") && arg1(1) == env && arg2(1) == recv && arg3(1) == result(0) && arg4(1) == chainArg && arg5(1) == kwargs && res == result(1)
+//@   ensures  !isErr(result(0)) && !resultok(0) ==> sliceArg(1) == args
+//@   ensures  !isErr(result(0)) && resultok(0) ==> len(sliceArg(1)) == len(args) + 1
+//@   assigns  EC
+//
+// list chain (@): every element the receiver's iterator yields is passed to the call, in order; a failed
+// call ends the chain with that error; nil results are dropped, the others collected in order
+//@ func evaluator.squashNilPropCallListChainMiddleware$1(env, recv, propName, _, chainArg, args, kwargs) res
+//@   requires isVal(recv) && isVal(chainArg) && next != nil && env != nil && kwargs != nil
+//@   assigns  EC
+//@   loop 1 invariant fresh(elems) && iter != nil
+//@   loop 1 step ncalls == prev(ncalls) + 2 && called(prev(ncalls), "evaluator.(*iterHandler).Next") && arg1(prev(ncalls)) == iter
+//@   loop 1 step called(prev(ncalls) + 1, "next") && arg1(prev(ncalls) + 1) == env && arg2(prev(ncalls) + 1) == result(prev(ncalls)) && arg4(prev(ncalls) + 1) == chainArg && sliceArg(prev(ncalls) + 1) == args && arg5(prev(ncalls) + 1) == kwargs
+//@   loop 1 step !isErrT(result(prev(ncalls) + 1))
+//@   loop 1 step isNilT(result(prev(ncalls) + 1)) ==> elems == prev(elems)
+//@   loop 1 step !isNilT(result(prev(ncalls) + 1)) ==> len(elems) == prev(len(elems)) + 1 && elems[prev(len(elems))] == result(prev(ncalls) + 1)
+//@   loop 1 step forall j int :: {elems[j]} 0 <= j && j < prev(len(elems)) ==> elems[j] == prev(elems[j])
+//
+// strict list chain (=@): nil results are kept; a failed call still ends the chain with its error (C07)
+//@ func evaluator.keepNilPropCallListChainMiddleware$1(env, recv, propName, _, chainArg, args, kwargs) res
+//@   requires isVal(recv) && isVal(chainArg) && next != nil && env != nil && kwargs != nil
+//@   assigns  EC
+//@   loop 1 invariant fresh(elems) && iter != nil
+//@   loop 1 step ncalls == prev(ncalls) + 2 && called(prev(ncalls), "evaluator.(*iterHandler).Next") && arg1(prev(ncalls)) == iter
+//@   loop 1 step called(prev(ncalls) + 1, "next") && arg1(prev(ncalls) + 1) == env && arg2(prev(ncalls) + 1) == result(prev(ncalls)) && arg4(prev(ncalls) + 1) == chainArg && sliceArg(prev(ncalls) + 1) == args && arg5(prev(ncalls) + 1) == kwargs
+//@   loop 1 step !isErrT(result(prev(ncalls) + 1))
+//@   loop 1 step len(elems) == prev(len(elems)) + 1 && elems[prev(len(elems))] == result(prev(ncalls) + 1)
+//@   loop 1 step forall j int :: {elems[j]} 0 <= j && j < prev(len(elems)) ==> elems[j] == prev(elems[j])
+//
+// reduce chain ($): folds left from the chain argument; each step calls with receiver = accumulator and
+// the element prepended to the arguments; a failed call ends the chain with its error
+//@ func evaluator.propCallReduceChainMiddleware$1(env, recv, propName, _, chainArg, args, kwargs) res
+//@   requires isVal(recv) && isVal(chainArg) && next != nil && env != nil && kwargs != nil
+//@   assigns  EC
+//@   loop 1 invariant iter != nil && isVal(acc)
+//@   loop 1 invariant ncalls == 1 ==> acc == chainArg
+//@   loop 1 step ncalls == prev(ncalls) + 2 && called(prev(ncalls), "evaluator.(*iterHandler).Next") && arg1(prev(ncalls)) == iter
+//@   loop 1 step called(prev(ncalls) + 1, "next") && arg1(prev(ncalls) + 1) == env && arg2(prev(ncalls) + 1) == prev(acc) && arg4(prev(ncalls) + 1) == chainArg && arg5(prev(ncalls) + 1) == kwargs && len(sliceArg(prev(ncalls) + 1)) == len(args) + 1
+//@   loop 1 step !isErrT(result(prev(ncalls) + 1)) && acc == result(prev(ncalls) + 1)
+//
+//@ global_inv iterSym != nil && iterSym.Value == "_iter" && nextSym != nil && nextSym.Value == "next"
+//@ props C04 C14
+//@ func evaluator.iterOf(env, obj) res, err
+//@   requires env != nil && isVal(obj)
+//@   ensures  err == nil ==> res != nil && isVal(res.iter)
+//@   ensures  ncalls == 1 && called(0, evaluator.builtInCallProp) && arg1(0) == env && nvarargs(0) == 3 && arg4(0) == obj && isT(arg5(0), *object.PanStr) && as(arg5(0), *object.PanStr).Value == "_iter"
+//@   assigns  EC
+//@ func evaluator.(*iterHandler).Next(h, env) res, err
+//@   requires h != nil && env != nil && isVal(h.iter)
+//@   ensures  err == nil ==> isVal(res)
+//@   ensures  ncalls == 1 && called(0, evaluator.builtInCallProp) && arg1(0) == env && nvarargs(0) == 3 && arg4(0) == h.iter && isT(arg5(0), *object.PanStr) && as(arg5(0), *object.PanStr).Value == "next"
 //@   assigns  EC
